@@ -387,6 +387,11 @@ func Run(c Case) int {
 					r.log(Event{K: "finished", S: cn})
 				}
 			case <-fr:
+				if outcome == "drop" { // goes away without a word
+					r.log(Event{K: "gone", S: cn})
+					_ = lime.VerifTransport(cc).Close()
+					return
+				}
 				fs, err := cc.FinishSession(ctx)
 				if err == nil && fs.State == lime.SessionStateFinished {
 					r.log(Event{K: "finished", S: cn})
